@@ -1335,6 +1335,92 @@ func c13AcceptFailsScenario(w *core.W, kind string, inflight bool, seed uint64) 
 	e.finish(reqs, true)
 }
 
+// scenario: every network name ListenAndServe knows (tcp4, tcp6, udp4, udp6, tcp-tls, tcp4-tls, tcp6-tls
+// beside tcp and udp), each on a real loopback socket: start, an exchange, a Shutdown that has to wait
+// for a held handler whose reply still arrives, clean end.
+func c13NetVariantScenario(w *core.W, network string, seed uint64) {
+	v6 := strings.Contains(network, "6")
+	host := "127.0.0.1"
+	if v6 {
+		host = "[::1]"
+		if l, err := net.Listen("tcp6", "[::1]:0"); err != nil {
+			w.Count("ipv6_loopback_unavailable", 1)
+			return
+		} else {
+			l.Close()
+		}
+	}
+	e := newC13Env(w, "none", "net:"+network, seed)
+	e.kind = network + "-real"
+	e.srv.Net, e.srv.Addr = network, host+":0"
+	cnet := "udp"
+	var cliTLS *tls.Config
+	if strings.HasPrefix(network, "tcp") {
+		cnet = "tcp"
+	}
+	if strings.HasSuffix(network, "-tls") {
+		cnet = "tcp-tls"
+		e.srv.TLSConfig, cliTLS = c13TLS()
+	}
+	if !e.start() {
+		return
+	}
+	w.Count("net_variant_servers", 1)
+	addr := ""
+	if e.srv.Listener != nil {
+		addr = e.srv.Listener.Addr().String()
+	} else if e.srv.PacketConn != nil {
+		addr = e.srv.PacketConn.LocalAddr().String()
+	}
+	exchange := func(id uint16) error {
+		q := new(dns.Msg)
+		q.SetQuestion(fmt.Sprintf("r%d.example.", id), dns.TypeA)
+		q.Id = id
+		c := &dns.Client{Net: cnet, TLSConfig: cliTLS, Timeout: c13Watch}
+		r, _, err := c.Exchange(q, addr)
+		if err == nil && (r == nil || r.Id != id) {
+			err = fmt.Errorf("reply does not match")
+		}
+		return err
+	}
+	if err := exchange(71); err != nil {
+		e.viol("no-answer", fmt.Sprintf("a server started with Net=%q on %s does not answer: %v", network, addr, err))
+	}
+	// a held handler, Shutdown in the meantime
+	e.holdOn.Store(true)
+	got := make(chan error, 1)
+	go func() { got <- exchange(72) }()
+	deadline := time.Now().Add(c13Watch)
+	for e.entered.Load() < 2 && time.Now().Before(deadline) {
+		time.Sleep(time.Millisecond)
+	}
+	sd := e.shutdown("s1", nil)
+	time.Sleep(3 * time.Millisecond)
+	if e.entered.Load() >= 2 {
+		if err, ok := sd.wait(0); ok {
+			e.viol("shutdown-returned-before-handler", fmt.Sprintf("Shutdown returned (%v) while a handler was still running", err))
+			close(e.hold)
+			e.finish(nil, false)
+			return
+		}
+	}
+	close(e.hold)
+	if err, ok := sd.wait(c13Watch); !ok {
+		e.viol("shutdown-does-not-return", "Shutdown did not return")
+	} else if err != nil {
+		e.viol("shutdown-error", fmt.Sprintf("Shutdown returned %v", err))
+	}
+	select {
+	case err := <-got:
+		if err != nil {
+			e.viol("reply-not-delivered", fmt.Sprintf("the reply of the handler that was running during Shutdown did not reach its client: %v", err))
+		}
+	case <-time.After(c13Watch):
+		e.viol("reply-not-delivered", "the client of the handler that was running during Shutdown is still waiting")
+	}
+	e.finish(nil, false)
+}
+
 type c13Case struct {
 	name string
 	run  func(w *core.W, seed uint64)
@@ -1388,6 +1474,10 @@ func c13Cases() []c13Case {
 		if kind == "tcp-sim" || kind == "pc-sim" {
 			cs = append(cs, c13Case{kind + " slow notify", func(w *core.W, s uint64) { c13SlowNotifyScenario(w, kind, s) }})
 		}
+	}
+	for _, network := range []string{"tcp4", "tcp6", "udp4", "udp6", "tcp-tls", "tcp4-tls", "tcp6-tls"} {
+		network := network
+		cs = append(cs, c13Case{"net " + network, func(w *core.W, s uint64) { c13NetVariantScenario(w, network, s) }})
 	}
 	for v := 0; v < 4; v++ {
 		v := v
